@@ -155,11 +155,13 @@ def Ord.empty : Ord := ⟨fun _ => [], fun _ => []⟩
 def clearKeys (A : Int → List Int) (ks : List Int) : Int → List Int :=
   fun k => if ks.contains k then [] else A k
 
+/-- `c` leaves the list of `ok` and is appended to the list of `nk`. -/
+def moveKid (A : Int → List Int) (ok nk c : Int) : Int → List Int :=
+  setKey (setKey A ok ((A ok).erase c)) nk (setKey A ok ((A ok).erase c) nk ++ [c])
+
 /-- One operation on the ordered lists, using nothing but the list operations of Spec/Ordered
 (`insertAfter`, append, `erase`, drop), driven by the Model's answer. -/
-def ordStep (S : Ord) (d : Db) (op : Op) : Ord :=
-  match (step d op).2 with
-  | .ok out =>
+def ordOk (S : Ord) (d : Db) (op : Op) (out : Out) : Ord :=
     match op, out with
     | .createRoot _, some i => { S with kids := setKey S.kids 0 (S.kids 0 ++ [i]) }
     | .createRootAfter _ a, some i => { S with kids := setKey S.kids 0 (Ordered.insertAfter a i (S.kids 0)) }
@@ -168,9 +170,7 @@ def ordStep (S : Ord) (d : Db) (op : Op) : Ord :=
     | .setParent c p, _ =>
       match get d.pl c with
       | some row =>
-        if row.key != keyOf p then
-          let K := setKey S.kids row.key ((S.kids row.key).erase c)
-          { S with kids := setKey K (keyOf p) (K (keyOf p) ++ [c]) }
+        if row.key != keyOf p then { S with kids := moveKid S.kids row.key (keyOf p) c }
         else S
       | none => S
     | .removeCrate c, _ =>
@@ -197,6 +197,10 @@ def ordStep (S : Ord) (d : Db) (op : Op) : Ord :=
     | .peRemove l e, _ => { S with ents := setKey S.ents l ((S.ents l).erase e) }
     | .peClear l, _ => { S with ents := setKey S.ents l [] }
     | _, _ => S
+
+def ordStep (S : Ord) (d : Db) (op : Op) : Ord :=
+  match (step d op).2 with
+  | .ok out => ordOk S d op out
   | _ => S
 
 def ordRun : Db → Ord → List Op → Ord
@@ -211,9 +215,7 @@ def okOp : Op → Bool
 
 /-- What the property prescribes for the sibling listing of key `k` across one operation
 (same table as the oracle of the tie). -/
-def kidsChange (d : Db) (op : Op) (k : Int) : Ordered.Change :=
-  match (step d op).2 with
-  | .ok out =>
+def kidsChangeOk (d : Db) (op : Op) (out : Out) (k : Int) : Ordered.Change :=
     match op, out with
     | .createRoot _, some i => if k = 0 then .inserted i else .same
     | .createRootAfter _ a, some i => if k = 0 then .insertedAfter a i else .same
@@ -233,12 +235,14 @@ def kidsChange (d : Db) (op : Op) (k : Int) : Ordered.Change :=
         else if k = row.key then .erased c else .same
       | none => .same
     | _, _ => .same
+
+def kidsChange (d : Db) (op : Op) (k : Int) : Ordered.Change :=
+  match (step d op).2 with
+  | .ok out => kidsChangeOk d op out k
   | _ => .same
 
 /-- … and for the entry listing (entity row ids) of playlist `l`. -/
-def entsChange (d : Db) (op : Op) (l : Int) : Ordered.Change :=
-  match (step d op).2 with
-  | .ok out =>
+def entsChangeOk (d : Db) (op : Op) (out : Out) (l : Int) : Ordered.Change :=
     match op, out with
     | .removeCrate c, _ => if plExists d c && (c :: descendantIds d.pl c).contains l then .dropped else .same
     | .removeTrack t, _ =>
@@ -257,6 +261,10 @@ def entsChange (d : Db) (op : Op) (l : Int) : Ordered.Change :=
     | .peRemove c e, _ => if l = c then .erased e else .same
     | .peClear c, _ => if l = c then .dropped else .same
     | _, _ => .same
+
+def entsChange (d : Db) (op : Op) (l : Int) : Ordered.Change :=
+  match (step d op).2 with
+  | .ok out => entsChangeOk d op out l
   | _ => .same
 
 end EngineModel.Db.V2
